@@ -48,6 +48,7 @@ const PROGS: &[Prog] = &[
     Prog { name: "err-lex", files: &[("main.rssl", "int a = 1;\nint b = 18446744073709551616;\n")] },
     Prog { name: "err-string", files: &[("main.rssl", "int a;\nint b; \"unterminated\nint c;\n")] },
     Prog { name: "err-endif", files: &[("main.rssl", "int a;\n#endif\nint b;\n")] },
+    Prog { name: "ok-ifdef", files: &[("main.rssl", "#define USE 1\n#ifdef USE\nstatic const int a = 1;\n#else\nstatic const int a = 2;\n#endif\n#ifdef NOPE\nstatic const int c = a + nope;\n#endif\n#ifndef NOPE\nstatic const int d = a;\n#endif\n#undef USE\n#ifdef USE\nstatic const int e = oops;\n#endif\n")] },
     Prog { name: "err-directive", files: &[("main.rssl", "int a;\nint b;\n#frobnicate 1\n")] },
     Prog { name: "err-macro-args", files: &[("main.rssl", "#define F(a, b) a + b\nint x = 1;\nint y = F(1);\n")] },
     Prog { name: "err-in-macro", files: &[("main.rssl", "#define BAD(v) (v + undeclared_name)\nint f(int q) {\n  return BAD(q);\n}\n")] },
@@ -135,6 +136,8 @@ fn insert_trivia(text: &str, rng: &mut Rng, density: u64) -> String {
         }
         out += &body[last..];
         if !is_directive && rng.chance(1, density * 2) { out += *rng.pick(&[" ", " // tail", " /* t */"]); }
+        // after the last token of a directive line: blanks, a comment, a splice onto an empty line
+        if is_directive && rng.chance(1, density) { out += *rng.pick(&[" ", "\t ", " // tail", " /* t */", "/* t */ // u", " \\\n"]); }
         if line.ends_with('\n') { out.push('\n'); }
     }
     out
